@@ -56,13 +56,20 @@ fn c06_has_kings() {
     assert!(raw.has_kings() == r::one_king_each(&view(&b)), "VERIF has_kings");
 }
 
-/// {one king of the mover} update_pin_info() {checkers, pinned == from-scratch spec; nothing else modified}
+/// {one king of the mover, <= 16 enemy pieces} update_pin_info() {checkers, pinned == from-scratch spec; nothing
+/// else modified}. The chess_lookup accessors are replaced by their C09-verified contracts (stub_verified),
+/// so a symbolic-index table read becomes a ray walk.
 #[kani::proof]
 #[kani::unwind(17)]
+#[kani::stub_verified(chess_lookup::between)]
+#[kani::stub_verified(chess_lookup::rook_rays)]
+#[kani::stub_verified(chess_lookup::bishop_rays)]
+#[kani::stub_verified(chess_lookup::knight_moves)]
+#[kani::stub_verified(chess_lookup::pawn_attacks_moves)]
 fn c03_pin_info() {
     let mut b = any_board();
     let p = view(&b);
-    kani::assume(r::one_king_each(&p) && r::at_most_16(&p) && r::opponent_not_in_check(&p));
+    kani::assume(r::one_king_each(&p) && r::at_most_16(&p));
     let before = b;
     b.update_pin_info();
     assert!(b.checkers.to_u64() == r::checkers_spec(&p), "VERIF update_pin_info checkers");
